@@ -93,6 +93,19 @@ def run_l1(case):
   'finalize_order': [group indexes]} -> (violations, probes)."""
   classes = udf_classes()
   groups = case['groups']
+  if case.get('poison'):
+    # earlier in the life of this process an aggregate failed inside finalize() (tied values
+    # with arguments that cannot be ordered: outside the documented domain, any exception is
+    # fine) and its object was released; whatever that leaves behind must not reach the
+    # aggregates that come after
+    try:
+      bad = classes[case['poison']]()
+      bad.step(None, 5, None)
+      bad.step(2, 5, None)
+      bad.finalize()
+    except Exception:
+      pass
+    bad = None
   inst = {}
   pos = [0] * len(groups)
   probes = {}
@@ -176,6 +189,9 @@ def l1_cases(r, tier):
     r.shuffle(fin)
     cases.append({'layer': 'L1', 'groups': groups, 'orders': orders,
                   'interleave': interleavings(r, sizes), 'finalize_order': fin})
+  if r.random() < 0.1:
+    for c in cases:
+      c['poison'] = r.choice(['ArgMin', 'ArgMax'])
   return cases, exhaustive
 
 
@@ -848,7 +864,9 @@ def shrink(case):
     if len(groups) > 1:
       for g in range(len(groups)):
         yield {'layer': 'L1', 'groups': [groups[g]], 'orders': [case['orders'][g]],
-               'interleave': [0] * len(groups[g]['rows']), 'finalize_order': [0]}
+               'interleave': [0] * len(groups[g]['rows']), 'finalize_order': [0], 'poison': case.get('poison')}
+    if case.get('poison'):
+      yield dict(case, poison=None)
     for g, grp in enumerate(groups):
       order = case['orders'][g]
       for pos in range(len(order)):
@@ -878,6 +896,8 @@ def shrink(case):
       yield dict(case, aggs=[a])
   elif case['aggs'] and case['scalars']:
     yield dict(case, aggs=[])
+  if case.get('warm'):
+    yield dict(case, warm=[])
   if case.get('index'):
     yield dict(case, index=None)
   if case.get('split') is not None:
